@@ -12,6 +12,11 @@
    tcp_connections_opened/closed, data_bytes_per_location, udp_packets_from_client_per_location and
    tunnel_time_seconds_per_location, and LocationLabelTrace checks them against Label(class, behaviour in force at the
    lookup that feeds the series) - the same client is looked up many times per history.
+2c. scrape concurrent with a client's FIRST registration: LocationLabelRace.tla (registration + lookup as one critical
+   section; negative control = entry visible before its lookup answered) is checked exhaustively; TLC-simulated schedules
+   (Begin / ScrapeBegin / Release / ScrapeEnd) are replayed on the real collectors with a database stub whose lookup
+   BLOCKS; LocationLabelTrace (ScrapeSet) judges the location labels every scrape exported: never empty with lookup
+   enabled, only the final labels of the clients.  A scrape that blocks until the lookup answers is fine.
 3. exposure (ii): TLC-generated traffic histories of TunnelTime.tla (open/auth/close/probe/udp add/packets/remove/
    scrape) are replayed on the REAL prometheus.NewServiceMetrics collectors (private registry) from distinctive client
    addresses; the text exposition and the gathered series are scanned for client IP literals (all textual forms) and
@@ -351,6 +356,134 @@ def label_histories(ctx):
     ctx.sample({"label_history_head": behs[0][:6]})
 
 
+# ---- a scrape concurrent with the first registration of a client (LocationLabelRace) -------------------------
+LR_OVERLAY = dict(T.OVERLAY)
+LR_OVERLAY["zz_verif_labelrace_test.go"] = os.path.join(vlib.HARNESS, "overlay", "prometheus", "zz_verif_labelrace_test.go")
+LR_KIND_TEXT = {
+    "empty-location-with-lookup-enabled": "location lookup is ENABLED, yet the scrape exported a tunnel-time series with the "
+                                          "empty location (reserved for 'lookup disabled'): the client was reported before its "
+                                          "lookup had answered, so one client appears under two location labels",
+    "series-label-mismatch": "the scrape exported a location label that no registered client has by its class / database "
+                             "behaviour (or a sequential scrape lacks a client's label)",
+}
+
+
+def lr_generate(ctx, num, seed, **consts):
+    cfg = T.cfg_with("Gen_LocationLabelRace.cfg", **consts)
+    r = vlib.tlc(ctx, "LocationLabelRaceGen", "Gen_LocationLabelRaceRun.cfg", simulate=num, depth=80, seed=seed,
+                 deadlock=False, timeout=300, extra_files={"Gen_LocationLabelRaceRun.cfg": cfg})
+    if r.violated:
+        raise vlib.Inconclusive("model finding in LocationLabelRace.tla while generating: %s" % r.violated)
+    behs, seen = [], set()
+    for b in r.behaviours:
+        k = json.dumps(b, sort_keys=True)
+        if k not in seen:
+            seen.add(k)
+            behs.append(b)
+    return behs
+
+
+def lr_run(ctx, behs, tag="lr", wait_ms=200):
+    d = ctx.sub(tag)
+    inp, outp = os.path.join(d, "in.json"), os.path.join(d, "out.ndjson")
+    steps = [[{k: v for k, v in st.items() if k in ("a", "ip", "dbm", "enabled")} for st in b] for b in behs]
+    json.dump({"wait_ms": wait_ms, "behaviours": steps}, open(inp, "w"))
+    rc, out = vlib.go_overlay_test(ctx, "prometheus", LR_OVERLAY, "^TestVerifLabelRace$", timeout=180,
+                                   env_extra={"VERIF_LR_IN": inp, "VERIF_LR_OUT": outp})
+    if vlib.compile_failed(out):
+        raise vlib.Inconclusive("label-race overlay does not compile against the working tree:\n" + out[-3000:])
+    rows = vlib.read_ndjson(outp) if os.path.exists(outp) else []
+    if rc != 0 or "HARNESS-ERROR" in out or not rows or rows[-1].get("ev") != "Done":
+        raise vlib.Inconclusive("label-race overlay failed (rc=%d):\n%s" % (rc, out[-3000:]))
+    return rows
+
+
+def lr_judge(ctx, behs, rows):
+    """ScrapeSet events (what the model allows: want; what the real scrape exported: got) -> LocationLabelTrace."""
+    resets = {r["beh"]: r for r in rows if r.get("ev") == "Reset"}
+    steps = {(r["beh"], r["i"]): r for r in rows if r.get("ev") == "Step"}
+    events, index = [], []
+    for bi, b in enumerate(behs):
+        rs = resets.get(bi)
+        if rs is None:
+            raise vlib.Inconclusive("label-race: behaviour %d not executed" % bi)
+        for si, st in enumerate(b[1:], start=1):
+            ob = steps.get((bi, si))
+            if ob is None or ob["a"] != st["a"]:
+                raise vlib.Inconclusive("label-race: step %d of behaviour %d not recorded" % (si, bi))
+            if st["a"] in ("ScrapeEnd", "Scrape"):
+                want = [{"cls": rs["cls"][w["ip"] - 1], "db": w["db"], "cc": rs["cc"][w["ip"] - 1]} for w in st["want"]]
+                events.append({"ev": "ScrapeSet", "enabled": bool(rs["enabled"]), "mode": st["mode"], "want": want,
+                               "got": list(ob["got"])})
+                index.append((bi, si, ob))
+    tf = os.path.join(ctx.scratch, "lr-trace-%d.ndjson" % len(os.listdir(ctx.scratch)))
+    vlib.write_ndjson(tf, events)
+    ok, r = vlib.validate_traces(ctx, "LocationLabelTrace", "LocationLabelTrace.cfg", tf, timeout=600)
+    res = _result(r)
+    if res is None or res["lines"] != len(events) or not ok:
+        raise vlib.Inconclusive("LocationLabelTrace did not consume the label-race trace: %s %s" % (
+            r.violated or "", "\n".join(r.out.splitlines()[-15:])))
+    bad, reported = set(), set()
+    for v in res["viols"]:
+        bi, si, ob = index[v["line"] - 1]
+        bad.add(bi)
+        conc = behs[bi][si]["a"] == "ScrapeEnd"
+        sig = {"module": "metrics", "kind": v["kind"], "family": "tunnel_time_seconds_per_location",
+               "schedule": "scrape-during-first-lookup" if conc else "sequential-scrape"}
+        k = json.dumps(sig, sort_keys=True)
+        if k in reported:
+            continue
+        reported.add(k)
+        ev = events[v["line"] - 1]
+        hist = " ; ".join("%s%s" % (s["a"], "(%d)" % s["ip"] if s.get("ip") else "") for s in behs[bi][1:si + 1])
+        ctx.violation(sig,
+                      "%s of tunnel_time_seconds_per_location: %s.  The scrape exported the series {%s}; the clients whose "
+                      "registration had begun have the location labels %s (class, database behaviour, country); %s; schedule: %s" % (
+                          "a scrape started while the location lookup of a client's first tunnel was in progress" if conc
+                          else "a sequential scrape", LR_KIND_TEXT.get(v["kind"], v["kind"]), " | ".join(ob.get("tuples") or []),
+                          json.dumps(ev["want"]), "lookup %s" % ("enabled" if ev["enabled"] else "disabled"), hist[-600:]),
+                      {"kind": "labelrace", "behaviour": behs[bi], "step": si, "event": ev})
+    return events, index, bad
+
+
+def label_race(ctx):
+    r = vlib.tlc(ctx, "LocationLabelRace", "MC_LocationLabelRace.cfg", workers=2, timeout=300, deadlock=False)
+    ctx.add_tlc(r, "scrape concurrent with a client's first registration: no unset location, one location per client")
+    if not r.ok:
+        raise vlib.Inconclusive("model finding in LocationLabelRace.tla: %s" % r.violated)
+    neg = vlib.tlc(ctx, "LocationLabelRace", "MC_LocationLabelRaceNeg.cfg", workers=2, timeout=300, deadlock=False)
+    if neg.violated != "NoUnsetLocation":
+        raise vlib.Inconclusive("negative control of LocationLabelRace (entry visible before its lookup answered) was not "
+                                "rejected by NoUnsetLocation: %s" % neg.violated)
+    budget = 20 if ctx.quick else 120          # concurrent scrapes (each may block for wait_ms on a correct tree)
+    cand = lr_generate(ctx, 40 if ctx.quick else 300, ctx.seed + 11) + \
+        lr_generate(ctx, 6 if ctx.quick else 30, ctx.seed + 12, DbEnabled=False)
+    behs, nconc = [], 0
+    for b in cand:
+        c = sum(1 for s in b if s["a"] == "ScrapeBegin")
+        dis = not b[0]["enabled"]
+        if c == 0 or (nconc + c > budget and not dis) or (dis and sum(1 for x in behs if not x[0]["enabled"]) >= 2):
+            continue
+        behs.append(b)
+        nconc += 0 if dis else c
+    if nconc < 8:
+        raise vlib.Inconclusive("label-race generation produced only %d concurrent scrapes" % nconc)
+    rows = lr_run(ctx, behs)
+    events, index, bad = lr_judge(ctx, behs, rows)
+    # antecedent: the scrape really was started while a lookup was blocked inside startConnection
+    inflight = sum(1 for (_, _, ob) in index if ob["a"] == "ScrapeEnd" and ob.get("lookups_in_flight"))
+    if inflight < 5:
+        raise vlib.Inconclusive("label-race schedules are vacuous: only %d scrapes were started while a tunnel-time lookup was "
+                                "blocked in the database stub" % inflight)
+    blocked = sum(1 for (_, _, ob) in index if ob["a"] == "ScrapeEnd" and ob.get("blocked"))
+    ctx.cov["traces_validated_against_impl"] += len(behs) - len(bad)
+    ctx.cov["evaluations"] += len(behs)
+    ctx.cov["distinct_nontrivial"] += sum(1 for bi, b in enumerate(behs) if b[0]["enabled"])
+    ctx.cov["label_race_scrapes_during_lookup"] = inflight
+    ctx.cov["label_race_scrapes_that_waited_for_the_lookup"] = blocked
+    ctx.sample({"label_race_head": behs[0][:6]})
+
+
 def selftest(ctx):
     """anti-vacuity: the scanner must flag a planted client literal / label."""
     reset = {"listeners": ["192.0.2.2:9001"], "clients": ["203.0.113.77:54321", "[2001:db8::77]:54322"], "labels": [["AA", "1", "o"]],
@@ -396,6 +529,7 @@ def run(ctx):
     nrows, ncalls = table_binding(ctx)
     nscan = exposure(ctx)
     label_histories(ctx)
+    label_race(ctx)
     from checks import mc_common
     mc_common.location_part(ctx)
     process_exposure(ctx)
@@ -426,6 +560,9 @@ def replay(ctx, path):
         for v in res["viols"][:1]:
             e = events[v["line"] - 1]
             ctx.violation(d["signature"], "reproduced: %s labelled %r (%s)" % (e["addr"], e["raw"], v["kind"]), rp)
+    elif rp.get("kind") == "labelrace":
+        rows = lr_run(ctx, [rp["behaviour"]], tag="replay")
+        lr_judge(ctx, [rp["behaviour"]], rows)
     elif rp.get("kind") == "labelhist":
         rows = lh_run(ctx, [rp["behaviour"]], tag="replay")
         lh_judge(ctx, [rp["behaviour"]], rows, "replay")
